@@ -33,47 +33,46 @@ LEVEL_TEXT = ("Seeded exploration of histories in which validations are interlea
 LEVEL_NOTE = ("Validation.register_handler - the documented way to change the default rules - is not "
               "issued; issue collections are compared as multisets of (object, IssueID, rank, message).")
 DESIGN_REF = "DESIGN.md 4 (C19)"
-ASSUMPTIONS = ["cross-process comparison on 1 in 40 runs (0.5 s each)"]
+ASSUMPTIONS = ["cross-process comparison at the end of every second run, on every document that can be saved, "
+               "by two long-lived helper interpreters per worker (hash seeds 1 and 987)"]
 
 PROFILES = {
     "c19-validation": Profile("c19-validation", {
         "new_doc": 4, "new_sec": 10, "new_prop": 10, "create_section": 4, "create_property": 4,
         "clone": 5, "append": 5, "set_attr": 6, "set_card": 10, "add_valid": 8, "remove_valid": 4,
         "validate": 14, "doc_validate": 8, "validate_custom": 12, "save": 6, "load": 4,
-        "restart": 4, "set_values": 3, "rename": 2,
+        "restart": 4, "set_values": 3, "rename": 2, "lookalike_prop": 4,
     }, fault_share=0.25, detached_share=0.25),
 }
 MONITORS = [mon_valid]
-XPROC_EVERY = 40
+XPROC_EVERY = 2
 
 
 def finale(U, interp, env, mem, res):
-    """(e) another process: save a document, validate it here and in two fresh interpreters."""
+    """(e) another process: save a document, validate it here and in two other interpreters
+    that run under other hash seeds (long-lived helpers of this worker, simkit.xproc)."""
     if res.case["run_seed"] % XPROC_EVERY:
         return None
     import odml
-    from simkit.xproc import issues_of
-    for doc in U.of_kind("doc"):
-        path = os.path.join(env.sandbox, "xproc.xml")
+    from simkit import xproc
+    for k, doc in enumerate(U.of_kind("doc")):
+        path = os.path.join(env.sandbox, "xproc%d.xml" % k)
         try:
             odml.save(doc, path, "xml")
         except Exception:
             continue
-        here = issues_of(odml.load(path, "xml"))
-        outs = []
-        for hashseed in ("1", "987"):
-            proc = subprocess.run([sys.executable, "-m", "simkit.xproc", path, "xml"], cwd=VERIF,
-                                  env=dict(os.environ, PYTHONHASHSEED=hashseed),
-                                  capture_output=True, text=True, timeout=120)
-            line = [ln for ln in proc.stdout.splitlines() if ln.startswith("XPROC ")]
-            if not line:
-                raise RuntimeError("xproc failed: %s" % proc.stderr[-300:])
-            outs.append(json.loads(line[0][6:]))
+        here = xproc.issues_of(odml.load(path, "xml"))
+        outs = xproc.ask(path, "xml")
         res.stats["xproc_samples"] = res.stats.get("xproc_samples", 0) + 1
-        if outs[0] != outs[1] or json.loads(json.dumps(here)) != outs[0]:
+        if any("error" in o for o in outs):
+            raise RuntimeError("xproc helper: %r" % (outs,))
+        a, b = outs[0]["issues"], outs[1]["issues"]
+        mine = json.loads(json.dumps(here))
+        if a != b or mine != a:
+            diff = [i for i in a if i not in b] + [i for i in b if i not in a] + \
+                [i for i in mine if i not in a]
             return ("valid.cross-process", "validating the same saved document in other processes "
-                    "gives different issue collections")
-        break
+                    "gives different issue collections, e.g. %r" % (diff[:2],))
     return None
 
 
